@@ -14,10 +14,11 @@ import (
 // D (the receiver's old contents) and A (the argument). append(x, y...) ↦ x·y keeping x's base.
 
 type absSeq struct {
-	atoms []string // "D", "A"
-	base  string   // "recv", "arg", "fresh", "nil", "?"
-	ok    bool
-	why   string
+	atoms   []string // "D", "A"
+	unknown bool     // contents not expressible (partial slice): base still tracked
+	base    string   // "recv", "arg", "fresh", "nil"
+	ok      bool
+	why     string
 }
 
 func (s absSeq) String() string {
@@ -28,13 +29,19 @@ func (s absSeq) String() string {
 	if a == "" {
 		a = "ε"
 	}
+	if s.unknown {
+		a = "?"
+	}
 	return a + " [base " + s.base + "]"
 }
 
 type c19eval struct {
-	info *types.Info
-	recv types.Object
-	arg  types.Object
+	info   *types.Info
+	recv   types.Object
+	arg    types.Object
+	vars   map[types.Object]absSeq // locals
+	cur    *absSeq                 // current abstract value of *d (nil = D unchanged)
+	copies []absSeq                // destinations of copy() calls
 }
 
 func (ev *c19eval) eval(e ast.Expr) absSeq {
@@ -43,6 +50,9 @@ func (ev *c19eval) eval(e ast.Expr) absSeq {
 		return ev.eval(x.X)
 	case *ast.StarExpr:
 		if id, ok := x.X.(*ast.Ident); ok && ev.info.Uses[id] == ev.recv {
+			if ev.cur != nil {
+				return *ev.cur
+			}
 			return absSeq{atoms: []string{"D"}, base: "recv", ok: true}
 		}
 	case *ast.Ident:
@@ -52,6 +62,25 @@ func (ev *c19eval) eval(e ast.Expr) absSeq {
 		if ev.arg != nil && ev.info.Uses[x] == ev.arg {
 			return absSeq{atoms: []string{"A"}, base: "arg", ok: true}
 		}
+		if v, ok := ev.vars[ev.info.Uses[x]]; ok {
+			return v
+		}
+	case *ast.SliceExpr:
+		v := ev.eval(x.X)
+		if !v.ok {
+			return v
+		}
+		full := x.Low == nil || types.ExprString(x.Low) == "0"
+		if x.High != nil && types.ExprString(x.High) != "len("+types.ExprString(x.X)+")" {
+			full = false
+		}
+		if !full {
+			v.unknown = true
+		}
+		if v.base == "nil" {
+			v.base = "fresh"
+		}
+		return v // a slice expression shares its operand's backing array
 	case *ast.CompositeLit:
 		if len(x.Elts) == 0 {
 			if _, isSlice := ev.info.TypeOf(x).Underlying().(*types.Slice); isSlice {
@@ -76,7 +105,7 @@ func (ev *c19eval) eval(e ast.Expr) absSeq {
 					if base == "nil" {
 						base = "fresh" // append to nil allocates
 					}
-					return absSeq{atoms: append(append([]string{}, a.atoms...), b.atoms...), base: base, ok: true}
+					return absSeq{atoms: append(append([]string{}, a.atoms...), b.atoms...), unknown: a.unknown || b.unknown, base: base, ok: true}
 				}
 			}
 			if _, isB := ev.info.Uses[id].(*types.Builtin); isB && id.Name == "make" {
@@ -89,6 +118,136 @@ func (ev *c19eval) eval(e ast.Expr) absSeq {
 		}
 	}
 	return absSeq{ok: false, why: "expression outside the analysable subset: " + types.ExprString(e)}
+}
+
+type c19path struct {
+	val         absSeq
+	conditional bool
+}
+
+// run interprets a statement list over all paths (conditions are not interpreted: every branch is
+// taken). It returns the final value per path: the value stored in *d (or returned, for All).
+func (ev *c19eval) run(list []ast.Stmt) (paths []c19path, undecided string) {
+	type state struct {
+		cur         *absSeq
+		vars        map[types.Object]absSeq
+		conditional bool
+	}
+	clone := func(s state) state {
+		n := state{conditional: s.conditional, vars: map[types.Object]absSeq{}}
+		if s.cur != nil {
+			c := *s.cur
+			n.cur = &c
+		}
+		for k, v := range s.vars {
+			n.vars[k] = v
+		}
+		return n
+	}
+	finish := func(s state, ret *absSeq) {
+		if ret != nil {
+			paths = append(paths, c19path{*ret, s.conditional})
+			return
+		}
+		v := absSeq{atoms: []string{"D"}, base: "recv", ok: true}
+		if s.cur != nil {
+			v = *s.cur
+		}
+		paths = append(paths, c19path{v, s.conditional})
+	}
+	var exec func(list []ast.Stmt, s state) (live []state)
+	exec = func(list []ast.Stmt, s state) []state {
+		live := []state{s}
+		for _, st := range list {
+			var next []state
+			for _, cs := range live {
+				ev.cur, ev.vars = cs.cur, cs.vars
+				switch x := st.(type) {
+				case *ast.AssignStmt:
+					if len(x.Lhs) != 1 || len(x.Rhs) != 1 {
+						undecided = "multi-assignment"
+						return nil
+					}
+					v := ev.eval(x.Rhs[0])
+					if star, ok := x.Lhs[0].(*ast.StarExpr); ok {
+						if id, ok := star.X.(*ast.Ident); ok && ev.info.Uses[id] == ev.recv && x.Tok == token.ASSIGN {
+							ns := clone(cs)
+							ns.cur = &v
+							next = append(next, ns)
+							continue
+						}
+					}
+					if id, ok := x.Lhs[0].(*ast.Ident); ok {
+						obj := ev.info.Defs[id]
+						if obj == nil {
+							obj = ev.info.Uses[id]
+						}
+						if obj != nil && obj != ev.arg && obj != ev.recv {
+							ns := clone(cs)
+							if _, isSlice := obj.Type().Underlying().(*types.Slice); isSlice {
+								ns.vars[obj] = v
+							}
+							next = append(next, ns)
+							continue
+						}
+					}
+					undecided = "assignment to " + types.ExprString(x.Lhs[0])
+					return nil
+				case *ast.ReturnStmt:
+					if len(x.Results) == 1 {
+						v := ev.eval(x.Results[0])
+						finish(cs, &v)
+					} else {
+						finish(cs, nil)
+					}
+				case *ast.IfStmt:
+					if x.Init != nil {
+						undecided = "if with init statement"
+						return nil
+					}
+					a := clone(cs)
+					a.conditional = true
+					next = append(next, exec(x.Body.List, a)...)
+					b := clone(cs)
+					b.conditional = true
+					switch el := x.Else.(type) {
+					case nil:
+						next = append(next, b)
+					case *ast.BlockStmt:
+						next = append(next, exec(el.List, b)...)
+					case *ast.IfStmt:
+						next = append(next, exec([]ast.Stmt{el}, b)...)
+					}
+					if undecided != "" {
+						return nil
+					}
+				case *ast.ExprStmt:
+					if call, ok := x.X.(*ast.CallExpr); ok {
+						if id, ok := call.Fun.(*ast.Ident); ok && id.Name == "copy" && len(call.Args) == 2 {
+							if _, isB := ev.info.Uses[id].(*types.Builtin); isB {
+								ev.copies = append(ev.copies, ev.eval(call.Args[0]))
+								next = append(next, cs)
+								continue
+							}
+						}
+					}
+					undecided = "call statement " + types.ExprString(x.X)
+					return nil
+				case *ast.EmptyStmt:
+					next = append(next, cs)
+				default:
+					undecided = fmt.Sprintf("%T is outside the analysable subset (loops, helper calls)", st)
+					return nil
+				}
+			}
+			live = next
+		}
+		return live
+	}
+	for _, s := range exec(list, state{vars: map[types.Object]absSeq{}}) {
+		finish(s, nil)
+	}
+	return
 }
 
 func (e *Env) C19() {
@@ -124,52 +283,49 @@ func (e *Env) C19() {
 			_, variadic := fd.Type.Params.List[0].Type.(*ast.Ellipsis)
 			e.Run.Check("R-LIST", key+" takes a variadic list", pos, variadic, "signature changed")
 		}
-		if len(fd.Body.List) != 1 {
-			e.Run.Undecided("R-LIST", key+" is a single statement", pos, fmt.Sprintf("%d statements: outside the straight-line subset", len(fd.Body.List)))
+		paths, undecided := ev.run(fd.Body.List)
+		if undecided != "" {
+			e.Run.Undecided("R-LIST", key+" is in the analysable subset", pos, undecided)
 			continue
 		}
-		var val absSeq
-		switch st := fd.Body.List[0].(type) {
-		case *ast.AssignStmt:
-			okShape := !w.ret && st.Tok == token.ASSIGN && len(st.Lhs) == 1 && len(st.Rhs) == 1
-			if okShape {
-				star, isStar := st.Lhs[0].(*ast.StarExpr)
-				okShape = isStar
-				if isStar {
-					id, isID := star.X.(*ast.Ident)
-					okShape = isID && pkg.TypesInfo.Uses[id] == ev.recv
+		if len(paths) == 0 {
+			e.Run.Undecided("R-LIST", key+" has a path", pos, "no path to the end of the method")
+			continue
+		}
+		for _, v := range ev.copies {
+			e.Run.Check("R-LIST", key+" does not write into the argument", pos, v.base != "arg", "copy() destination is based on the caller's argument slice")
+		}
+		for pi, pth := range paths {
+			pk := key
+			if len(paths) > 1 {
+				pk = fmt.Sprintf("%s path %d", key, pi+1)
+			}
+			val := pth.val
+			if !val.ok {
+				e.Run.Undecided("R-LIST", pk+" value", pos, val.why)
+				continue
+			}
+			contentsOK := !val.unknown && strings.Join(val.atoms, "·") == w.atoms
+			switch {
+			case contentsOK:
+				e.Run.OK("R-LIST", pk+" contents", pos, fmt.Sprintf("abstract value %s", val))
+			case !pth.conditional && !val.unknown:
+				e.Run.Violation("R-LIST", pk+" contents", pos, fmt.Sprintf("abstract value %s; an ordered list requires %s (D = old contents, A = arguments)", val, orEps(w.atoms)))
+			default:
+				if val.base != "arg" {
+					e.Run.Undecided("R-LIST", pk+" contents", pos, fmt.Sprintf("abstract value %s on a conditional path or through a partial slice; expected %s", val, orEps(w.atoms)))
 				}
 			}
-			if !okShape {
-				e.Run.Violation("R-LIST", key+" stores the new list into the receiver", pos, "the single statement is not `*d = <expr>`")
+			if w.ret {
+				e.Run.Check("R-LIST", pk+" returns the receiver's own slice", pos, val.base == "recv", "All must return what is stored (and therefore rendered); got base "+val.base)
 				continue
 			}
-			val = ev.eval(st.Rhs[0])
-		case *ast.ReturnStmt:
-			if !w.ret || len(st.Results) != 1 {
-				e.Run.Violation("R-LIST", key+" result", pos, "unexpected return")
-				continue
+			// freshness: stored slice's base is the receiver's own slice or fresh; never the argument
+			e.Run.Check("R-LIST", pk+" does not retain or write into the argument", pos, val.base != "arg",
+				fmt.Sprintf("on some path the stored slice is based on the caller's argument slice (%s): the list aliases it (later caller writes show up in the list / are rendered) and append may write into its spare capacity", val))
+			if (name == "Prepend" || name == "Replace") && val.base != "arg" {
+				e.Run.Check("R-LIST", pk+" builds on a fresh slice", pos, val.base == "fresh", "base is "+val.base)
 			}
-			val = ev.eval(st.Results[0])
-		default:
-			e.Run.Undecided("R-LIST", key+" statement kind", pos, fmt.Sprintf("%T is outside the straight-line subset", st))
-			continue
-		}
-		if !val.ok {
-			e.Run.Undecided("R-LIST", key+" value", pos, val.why)
-			continue
-		}
-		e.Run.Check("R-LIST", key+" contents", pos, strings.Join(val.atoms, "·") == w.atoms,
-			fmt.Sprintf("abstract value %s; an ordered list requires %s (D = old contents, A = arguments)", val, orEps(w.atoms)))
-		if w.ret {
-			e.Run.Check("R-LIST", key+" returns the receiver's own slice", pos, val.base == "recv", "All must return what is stored (and therefore rendered); got base "+val.base)
-			continue
-		}
-		// freshness: stored slice's base is the receiver's own slice or fresh; never the argument
-		e.Run.Check("R-LIST", key+" does not retain or write into the argument", pos, val.base != "arg",
-			fmt.Sprintf("the stored slice is based on the caller's argument slice (%s): it aliases it, and append may write into its spare capacity", val))
-		if name == "Prepend" || name == "Replace" {
-			e.Run.Check("R-LIST", key+" builds on a fresh slice", pos, val.base == "fresh", "base is "+val.base)
 		}
 	}
 	e.Run.Analysed("methods", 5)
